@@ -8,9 +8,9 @@ package harness
 
 import (
 	"bufio"
-	"errors"
 	"encoding/binary"
 	"encoding/json"
+	"errors"
 	"fmt"
 	"hash/fnv"
 	"os"
